@@ -129,9 +129,30 @@ static void part_hist() {
     sample("hist/NAND80,extern-product-k2,: on a fresh thread run an 80-bit NAND, then a k=2 external product, then the probe (NAND, MUX, XOR with the 128-bit key): probe bytes == reference");
 }
 
+// ---- model support: record the per-thread event sequence of the implementation / replay a model trace (one thread id per model step)
+static const std::set<std::string> &relevant_points() { static std::set<std::string> r; if (r.empty()) { std::stringstream st(opt("relevant", "mutex_lock;mutex_unlock;fftw_plan_dft_r2c_1d:pre;fftw_destroy_plan:pre")); std::string tok; while (std::getline(st, tok, ';')) r.insert(tok); } return r; }
+static void part_record() { // default schedule, thread 0 runs alone first: its event list is the protocol of one thread
+    int T = (int)opti("threads", 2); auto scs = scenarios(T, 1); const Scenario &sc = scs[0];
+    Fate f = forked([&] { sc.prepare(); std::vector<std::function<void()>> bodies; std::vector<std::string> outs(sc.nthreads); for (int t = 0; t < sc.nthreads; t++) bodies.push_back([&, t] { outs[t] = sc.work(t); });
+        sched::Trace tr = sched::run(bodies, {}, true); std::string ev; for (auto &e : tr.events) ev += e + ","; blob(ev); }, 60);
+    if (f.died()) { fprintf(stderr, "record failed: %s\n", fate_str(f).c_str()); exit(2); }
+    info("events", S().blob); eval(1); nontrivial(2); outcome(fnv(S().blob.data(), S().blob.size())); outcome(1);
+}
+static void part_script() { // script=0.0.1.1...: thread ids, one per model step; relevant points only
+    int T = (int)opti("threads", 2); auto scs = scenarios(T, 1); const Scenario &sc = scs[0]; std::vector<int> script; { std::stringstream st(opt("script")); std::string tok; while (std::getline(st, tok, '.')) script.push_back(atoi(tok.c_str())); }
+    Fate f = forked([&] { sc.prepare(); std::vector<std::string> refs(sc.nthreads), outs(sc.nthreads); for (int t = 0; t < sc.nthreads; t++) refs[t] = sc.work(t);
+        std::vector<std::function<void()>> bodies; for (int t = 0; t < sc.nthreads; t++) bodies.push_back([&, t] { outs[t] = sc.work(t); });
+        sched::Trace tr = sched::run(bodies, {}, true, &script, &relevant_points());
+        std::string verdict = tr.diverged ? "DIVERGED" : tr.deadlock ? "deadlock" : !tr.monitor.empty() ? tr.monitor : ""; if (verdict.empty()) for (int t = 0; t < sc.nthreads; t++) if (outs[t] != refs[t]) verdict = fmt("thread %d output differs", t);
+        std::string ev; for (auto &p : tr.points) ev += fmt("%d:%s,", p.chosen, p.label.c_str()); blob(ev + "|" + verdict); }, 60);
+    std::string b = f.died() ? std::string("|died: ") + fate_str(f) : S().blob; size_t bar = b.rfind('|');
+    info("steps", b.substr(0, bar)); info("verdict", b.substr(bar + 1)); eval(1); nontrivial(2); outcome(fnv(b.data(), b.size())); outcome(2);
+}
+
 int main(int argc, char **argv) {
     init(argc, argv);
     std::string part = opt("part", "sched");
+    if (part == "record") part_record(); else if (part == "script") part_script(); else
     if (part == "sched") part_sched(); else part_hist();
     return finish();
 }
